@@ -457,13 +457,19 @@ Section Refine.
   Definition lru_after (p2 : proj A) (f : file) : proj A :=
     set_lru A p2 (match res_of A p2 f with Some _ => frem f (p_lru p2) | None => p_lru p2 end).
 
-  Lemma he_changed_eq dk p f :
+  (* "changed" said of a file of the project is handled as such (also by the code with the changed-unknown repair) *)
+  Lemma eff_kind_known (p : proj A) f : fmem f (p_files p) = true -> eff_kind A fx p (f, KChanged) = KChanged.
+  Proof. intros H. unfold eff_kind. cbn [fst snd]. rewrite H, andb_false_r. reflexivity. Qed.
+
+  Lemma he_changed_eq dk p f : fmem f (p_files p) = true ->
     handle_events A fx dk p [(f, KChanged)] =
     let pc := first_one A fx true dk p f in
     let p3 := lru_after (fst pc) f in
     if snd pc then ((if fmem f (p_tincl p) then recompute_third A p3 else p3), true) else (p3, false).
   Proof.
-    unfold handle_events, lru_after. cbn [fold_left classify_one fst snd h_again h_refer h_all h_third app is_nil negb].
+    intros Hknown.
+    unfold handle_events, lru_after. cbn [fold_left]. unfold classify_one. cbn [fst snd]. rewrite (eff_kind_known _ _ Hknown).
+    cbn [classify_base fst snd h_again h_refer h_all h_third app is_nil negb].
     unfold first_many. cbn [fold_left fst snd].
     destruct (first_one A fx true dk p f) as [p2 c]. cbn [fst snd orb]. destruct c; reflexivity.
   Qed.
@@ -476,7 +482,7 @@ Section Refine.
     handle_events A fx dk p [(f, KCreated)] =
     (recompute_third A (reanalyse_all A (lru_after (fst (first_one A fx true dk (created_proj p f) f)) f) [f]), true).
   Proof.
-    intros Hd. unfold handle_events, lru_after, created_proj. cbn [fold_left classify_one fst snd]. rewrite Hd.
+    intros Hd. unfold handle_events, lru_after, created_proj. cbn [fold_left classify_one classify_base eff_kind fst snd]. rewrite Hd.
     cbn [h_again h_refer h_all h_third app is_nil negb fadd orb]. unfold first_many. cbn [fold_left fst snd].
     destruct (first_one A fx true dk _ f) as [p2 c]. cbn [fst snd orb negb andb is_nil].
     rewrite andb_false_r. reflexivity.
@@ -486,7 +492,7 @@ Section Refine.
     handle_events A fx dk p [(f, KDeleted)] =
     (recompute_third A (reanalyse_all A (set_lru A (remove_file A fx p f) (p_lru (remove_file A fx p f))) [f]), true).
   Proof.
-    intros Hd. unfold handle_events. cbn [fold_left classify_one fst snd]. rewrite Hd.
+    intros Hd. unfold handle_events. cbn [fold_left classify_one classify_base eff_kind fst snd]. rewrite Hd.
     cbn [h_again h_refer h_all h_third app is_nil negb fadd orb]. unfold first_many. cbn [fold_left fst snd negb andb is_nil].
     reflexivity.
   Qed.
@@ -532,9 +538,10 @@ Section Refine.
     (nostale_p (fst r) \/ idx_sub (fst r) -> good_proj (aset dk0 f t) (fst r)) /\
     (snd r = false -> forall g, errs_of A (fst r) g = errs_of A p g).
   Proof.
-    intros G Hd Hpres Hemp. cbn zeta. rewrite he_changed_eq. cbn zeta.
-    set (dk := aset dk0 f t).
+    intros G Hd Hpres Hemp. cbn zeta.
     assert (Hfin : In f (p_files p)) by (rewrite (gp_files _ _ G); apply dfiles_in; auto).
+    rewrite he_changed_eq by (apply fmem_in; exact Hfin). cbn zeta.
+    set (dk := aset dk0 f t).
     assert (Hdkf : aget dk f = Some t) by (apply aget_aset_same).
     pose proof (first_one_fields true dk p f) as Hfld. cbn zeta in Hfld. destruct Hfld as [F1 [F2 [F3 [F4 F5]]]].
     destruct (first_one_self dk p f t Hdkf) as [s' [Hs' Hg']].
@@ -637,6 +644,32 @@ Section Refine.
       unfold p2. rewrite first_one_other by exact Hne. unfold p1, created_proj. cbn [p_fsm].
       rewrite (gp_out _ _ G g); [reflexivity|]. intros H. apply Hg. right. exact H.
     - exact Hns.
+  Qed.
+
+  (* ---------- Changed f for a file that may be new (didSave of a buffer whose file was deleted; a watcher reporting a new
+     file as changed): with the changed-unknown repair it is handled like Created ---------- *)
+  Lemma he_changed_new_eq dk p f : fix_changed_unknown fx = true -> fmem f (p_files p) = false ->
+    handle_events A fx dk p [(f, KChanged)] = handle_events A fx dk p [(f, KCreated)].
+  Proof.
+    intros Hfx Hn. unfold handle_events. cbn [fold_left]. unfold classify_one. cbn [fst snd]. unfold eff_kind. cbn [fst snd].
+    rewrite Hfx, Hn. reflexivity.
+  Qed.
+
+  Lemma he_changed_gen dk0 p f t :
+    good_proj dk0 p -> mem f = true -> in_dir A f || fix_outside fx = true ->
+    aget dk0 f <> None \/ fix_changed_unknown fx = true -> empty_hit_p A fx p f t = false ->
+    let r := handle_events A fx (aset dk0 f t) p [(f, KChanged)] in
+    (nostale_p (fst r) \/ idx_sub (fst r) -> good_proj (aset dk0 f t) (fst r)) /\
+    (snd r = false -> forall g, errs_of A (fst r) g = errs_of A p g).
+  Proof.
+    intros G Hd Hsh Hpres Hemp.
+    destruct (aget dk0 f) as [t0|] eqn:E0.
+    - apply he_changed; try assumption. rewrite E0. discriminate.
+    - destruct Hpres as [Hpres|Hfx]; [congruence|].
+      assert (Hn : fmem f (p_files p) = false).
+      { apply fmem_false. rewrite (gp_files _ _ G). intros Hin. apply dfiles_in in Hin. destruct Hin as [_ Hin]. congruence. }
+      cbn zeta. rewrite (he_changed_new_eq _ _ _ Hfx Hn).
+      destruct (he_created dk0 p f t G Hsh Hd Hemp) as [H1 H2]. split; [exact H2|]. rewrite H1. discriminate.
   Qed.
 
   (* ---------- Deleted f (watched delete): disk f removed ---------- *)
